@@ -61,9 +61,9 @@ theorem C07_inf (r s : Ir.Range) : r.2 ≤ (rangeInf r s).2 ∧ s.2 ≤ (rangeIn
 
 /-- every range written on any node of an expression bounds that node's degree, under every degree
     assignment that the abstract environment bounds -/
-theorem C07_expr_sound (δ : VName → Nat) (env : DegEnv) (hag : AgreeD δ env) (e : Expr) (h : SoundD δ e) :
-    SoundD δ (degExpr env e).1 :=
-  degExpr_sound δ env hag e h
+theorem C07_expr_sound (δ : VName → Nat) (F : VName → Prop) (env : DegEnv) (hag : AgreeD δ env F) (e : Expr)
+    (h : SoundD δ F e) : SoundD δ F (degExpr env e).1 :=
+  degExpr_sound δ F env hag e h
 
 /-- degree propagation changes annotations only -/
 theorem C07_degree_unchanged (δ : VName → Nat) (env : DegEnv) (e : Expr) :
